@@ -464,16 +464,18 @@ def m_minimize(it, fun, x0=None, args=(), jac=None, **kw):
     x0t = x0 if isinstance(x0, STensor) else None
     if x0t is None or x0t.ndim != 1 or not isinstance(x0t.shape_[0], int):
         raise OutOfSubset("minimize with a start point of unknown dimension")
-    res_x = STensor.sym(cx, "res_x", x0t.shape_, "real")
-    cx.ghost.setdefault("minimize", []).append(dict(fun=fun, x0=x0t, args=args, jac=jac, kw=kw, x=res_x))
-    return SymObj(_types.SimpleNamespace, dict(x=res_x, success=SV(z3.Bool(cx.fresh_name("success")), "bool"), fun=cx.real("res_fun")))
+    k = len(cx.ghost.get("minimize", []))
+    res_x = STensor.sym(cx, "res_x" if k == 0 else f"res_x_call{k + 1}", x0t.shape_, "real")      # every call returns its own unknown point
+    res_fun = z3.Real("res_fun" if k == 0 else f"res_fun_call{k + 1}")                              # ... and objective value at that point
+    cx.ghost.setdefault("minimize", []).append(dict(fun=fun, x0=x0t, args=args, jac=jac, kw=kw, x=res_x, fun_value=res_fun))
+    return SymObj(_types.SimpleNamespace, dict(x=res_x, success=SV(z3.Bool(cx.fresh_name("success")), "bool"), fun=SV(res_fun, "real")))
 
 
 class OnePatient(Spec):
-    """_get_individual_parameters_patient(state, scaling=, with_jac=False, patient_id=): scipy's minimize is called once, on
-    obj_no_jac with (state, scaling), from x0 = scaling(the state's current individual variables); the returned parameters
-    are unscaling(res.x) and the returned loss is the objective nll_attach + 1.0 * nll_regul_ind_sum at exactly those
-    parameters.  (Dropped by the configuration: the convergence-issue logger, set to None.)"""
+    """_get_individual_parameters_patient(state, scaling=, with_jac=False, patient_id=): scipy's minimize is called on
+    obj_no_jac with (state, scaling), the first time from x0 = scaling(the state's current individual variables); the returned
+    parameters are unscaling(res.x) of that run (or of a further run whose reported objective value is not larger on that path) and
+    the returned loss is the objective nll_attach + 1.0 * nll_regul_ind_sum at exactly those parameters.  (Dropped by the configuration: the convergence-issue logger, set to None.)"""
     target = SM + ":ScipyMinimizeAlgorithm._get_individual_parameters_patient"
 
     def configs(self):
@@ -495,22 +497,22 @@ class OnePatient(Spec):
     def post(self, cx, st, out):
         dims, sc, sl, L = st["dims"], st["scalings"], st["slices"], st["L"]
         calls = cx.ghost.get("minimize", [])
-        res = [("minimize is called exactly once", z3.BoolVal(len(calls) == 1))]
-        if len(calls) != 1:
+        res = [("minimize is called", z3.BoolVal(len(calls) >= 1))]
+        if not calls:
             return res
         c0 = calls[0]
-        fun = c0["fun"]
-        res.append(("on the algorithm's obj_no_jac, with (state, scaling), without jacobian",
-                    z3.BoolVal(getattr(fun, "func", None) is resolve(SM + ":ScipyMinimizeAlgorithm.obj_no_jac") and getattr(fun, "self_obj", None) is st["algo"]
-                               and len(c0["args"]) == 2 and c0["args"][0] is st["state"] and c0["args"][1] is st["obj"] and c0["jac"] is False)))
-        res += [(f"start point [{sl[n].start + c}] = ({n}[{c}] - loc) / scale of the state's current value",
+        for c in calls:
+            fun = c["fun"]
+            res.append(("on the algorithm's obj_no_jac, with (state, scaling), without jacobian",
+                        z3.BoolVal(getattr(fun, "func", None) is resolve(SM + ":ScipyMinimizeAlgorithm.obj_no_jac") and getattr(fun, "self_obj", None) is st["algo"]
+                                   and len(c["args"]) == 2 and c["args"][0] is st["state"] and c["args"][1] is st["obj"] and c["jac"] is False)))
+        res += [(f"(first call) start point [{sl[n].start + c}] = ({n}[{c}] - loc) / scale of the state's current value",
                  c0["x0"].fn((z3.IntVal(sl[n].start + c),)) == (st["p0"][n].fn((z3.IntVal(0), z3.IntVal(c))) - sc[n].f["loc"].fn((z3.IntVal(c),))) / sc[n].f["scale"].fn((z3.IntVal(c),)))
                 for n, d in dims.items() for c in range(d)]
         v = out.value
         ok = isinstance(v, tuple) and len(v) == 2 and isinstance(v[0], dict) and list(v[0]) == list(dims)
         res.append(("returns (parameters per variable, loss)", z3.BoolVal(ok)))
         if ok:
-            want = unscaled(sc, sl, dims, c0["x"])
             got = []
             shapes = True
             for n, d in dims.items():
@@ -520,7 +522,13 @@ class OnePatient(Spec):
                     got += [t.elem_real((z3.IntVal(0), z3.IntVal(c))) for c in range(d)]
             res.append(("every variable has shape (1, dimension)", z3.BoolVal(bool(shapes))))
             if shapes:
-                res.append(("returned parameters = unscaling(res.x)", z3.And(*[g == w for g, w in zip(got, want)])))
+                # the returned point is the result of the run started from the state's values -- or of another run whose reported
+                # objective value is, on this path, not larger than that run's (scipy reports fun = objective at x)
+                alts = []
+                for r, c in enumerate(calls):
+                    same = z3.And(*[g == w for g, w in zip(got, unscaled(sc, sl, dims, c["x"]))])
+                    alts.append(same if r == 0 else z3.And(same, c["fun_value"] <= c0["fun_value"]))
+                res.append(("returned parameters = unscaling(res.x) of the run started from the state's values (or of a run reported at least as good)", z3.Or(*alts)))
                 res.append(("returned loss = objective at the returned parameters", z(v[1], "real") == total_objective(L, got)))
         return res
 
